@@ -95,7 +95,10 @@ class _G:
                 node["default"]["raises"] = self.pick(EXC_TYPES)
         elif r >= 8:
             node["default"] = {"t": "node", "n": self.opt(hashable) if self.chance(0.7) else self.leaf(hashable)}
-        if self.p["domains"] and self.chance(self.p.get("domain_rate", 0.025)):
+        if self.p.get("domain_always_true") and self.chance(self.p["domain_always_true"]):
+            # a declared domain that every value satisfies (keeps "values lie in their declared domains" true)
+            node["domain"] = {"t": "pred", "p": "any"}
+        elif self.p["domains"] and self.chance(self.p.get("domain_rate", 0.025)):
             d = self.draw(st.integers(0, 1 if self.p.get("picklable") else 2))
             if d == 0:
                 node["domain"] = {"t": "container", "v": self.draw(st.lists(st.sampled_from(U.HASHABLE_DISPATCH), min_size=1, max_size=5))}
